@@ -279,9 +279,15 @@ def check(pid, tier, cfg, replay=None):
     infra = []
 
     alt = REPO != "/repo"
-    biglock = Lock() if alt else None
-    if biglock:
-        biglock.__enter__()
+    global COQ
+    if alt:
+        # a scratch repository: work on a private copy of the Coq tree so that the generated facts of the scratch
+        # repository never touch /verif/coq and no lock is held while the harness and the model run
+        altcoq = os.path.join(BUILD, "alt-coq-" + pid)
+        with Lock():
+            subprocess.run(["rsync", "-a", "--delete", os.path.join(VERIF, "coq") + "/", altcoq + "/"])
+        COQ = altcoq
+    biglock = None
     try:
         # 1. T1 + proofs (shared Coq build directory: under the lock)
         lk = None if alt else Lock()
@@ -344,11 +350,7 @@ def check(pid, tier, cfg, replay=None):
             else:
                 mismatches = ids
     finally:
-        if biglock:
-            # restore the generated facts of /repo before releasing the lock
-            if os.path.exists(os.path.join(BUILD, "srcfacts")):
-                sh([os.path.join(BUILD, "srcfacts"), "/repo", os.path.join(COQ, "Gen")], timeout=300, env=GOENV)
-            biglock.__exit__()
+        pass
 
     # 4. decide
     failures = (res or {}).get("failures", [])
